@@ -219,7 +219,7 @@ def build(u):
             with u.impl_(pc, "HttpConnectionContext"):
                 u.take_fn(pc, "HttpConnectionContext::should_skip_sig", contract="        ensures r == skip_spec(self.method, self.url),\n")
                 u.take_fn(pc, "HttpConnectionContext::contains_traversal_characters", pre_body="broadcast use axiom_pat_view_str;",
-                          contract="        ensures r == contains_sub(uri_path(self.url), \"..\"@),  // @C01.contains_traversal_characters.exact\n")
+                          contract="        ensures r == contains_sub(uri_path(self.url), \"..\"@),  // @C01+C14.contains_traversal_characters.exact\n")
                 u.take_fn(pc, "HttpConnectionContext::log", contract="""
         ensures final(self).id == old(self).id, final(self).url == old(self).url, final(self).method == old(self).method,
                 final(self).tcp_connection_context == old(self).tcp_connection_context, final(self).now == old(self).now,
